@@ -12,7 +12,8 @@
 From Coq Require Import ZArith List Bool.
 From Common Require Import Res Str.
 From Routing Require Import Model Scheme Obs Spec Obs Proofs_Tables Proofs_Group Proofs_Merge Proofs_Library Proofs_Ops
-     Proofs_Routing Proofs_Witness Proofs_Frame Proofs_Sets Proofs_Scheme Proofs_Trace Proofs_Single Proofs_Examples.
+     Proofs_Routing Proofs_Witness Proofs_Frame Proofs_Sets Proofs_Scheme Proofs_Trace Proofs_Single Proofs_Examples Proofs_Modulo
+     Validation Front ObsFront Proofs_Validation Proofs_Front.
 Import ListNotations.
 Open Scope Z_scope.
 
@@ -524,3 +525,148 @@ Theorem C09_ex_aggregates_nonvacuous :
 Proof. exact aggregates_nonvacuous. Qed.
 Print Assumptions C09_ex_aggregates_nonvacuous.
 
+
+(* ---- the clauses the code does not satisfy at full strength, stated in full with the recorded
+        findings as the only explicit exceptions of the statement *)
+Theorem C09_faults_never_raise_modulo_findings : forall T P mx o log k,
+  ordinary_population P mx -> run_op T P mx o = (log, Raise k) ->
+  (k = KValidation /\ log = []) \/
+  (exists q us e b a, o = OSearch q us e /\ k = KLookup /\
+                      In (Bk b, MSearch, a) log /\ ans P b MSearch a = RRaise KLookup) \/
+  (exists u n b, o = OSave (Some u) n /\ k = KAssertion /\
+                 log = [(Bk b, PSave, APlaylist u n)] /\ ans P b PSave (APlaylist u n) = RRaise KAssertion).
+Proof. exact faults_never_raise_modulo_findings. Qed.
+Print Assumptions C09_faults_never_raise_modulo_findings.
+
+Theorem C09_faults_never_raise_other_requests : forall T P mx o log k,
+  ordinary_population P mx ->
+  (forall q us e, o <> OSearch q us e) -> (forall u n, o <> OSave u n) ->
+  run_op T P mx o = (log, Raise k) -> k = KValidation /\ log = [].
+Proof. exact faults_never_raise_other_requests. Qed.
+Print Assumptions C09_faults_never_raise_other_requests.
+
+Theorem C09_single_bad_answer_modulo_delete : forall T P mx o u flag empty b m a,
+  single_uri_op o = Some (u, flag, empty) -> single_call o = Some (m, a) ->
+  bad_uri u = false \/ m = PLookup \/ m = PSave ->
+  tget (table_for flag T o) (u_scheme u) = Some b ->
+  ans P b m a <> RRaise KBase -> (m = PSave -> ans P b m a <> RRaise KAssertion) ->
+  single_answer_ok o (ans P b m a) = false ->
+  snd (run_op T P mx o) = Ok empty \/
+  (is_delete o = true /\ (forall k, ans P b m a <> RRaise k) /\
+   snd (run_op T P mx o) = Ok (delete_passthrough (ans P b m a))).
+Proof. exact single_bad_answer_modulo_delete. Qed.
+Print Assumptions C09_single_bad_answer_modulo_delete.
+
+Theorem C09_distinct_values_modulo_dict : forall T P f q log l e,
+  get_distinct T P f q = (log, Ok (VList l)) -> In e l ->
+  (exists b es, ans P b MDistinct (ADistinct (field_compat f) q) = RList es /\ In e es) \/
+  (exists b items u, ans P b MDistinct (ADistinct (field_compat f) q) = RMap items /\
+                     field_cls f = CStr /\ e = EUriStr u /\ In u (map fst items)).
+Proof. exact distinct_values_modulo_dict. Qed.
+Print Assumptions C09_distinct_values_modulo_dict.
+
+(* ---- the validation layer (mopidy/internal/validation.py, model Validation.v): every check is
+        sound and complete for a declarative type predicate, and total *)
+Theorem C09_check_instance_iff : forall v t, check_instance v t = Ok tt <-> has_class t v.
+Proof. exact check_instance_iff. Qed.
+Print Assumptions C09_check_instance_iff.
+
+Theorem C09_check_instances_iff : forall v t,
+  check_instances v t = Ok tt <-> exists l, yields v l /\ Forall (has_class t) l.
+Proof. exact check_instances_iff. Qed.
+Print Assumptions C09_check_instances_iff.
+
+Theorem C09_check_iterable_iff : forall v, check_iterable v = Ok tt <-> exists l, yields v l.
+Proof. exact check_iterable_iff. Qed.
+Print Assumptions C09_check_iterable_iff.
+
+Theorem C09_check_boolean_iff : forall v, check_boolean v = Ok tt <-> exists b, v = PBool b.
+Proof. exact check_boolean_iff. Qed.
+Print Assumptions C09_check_boolean_iff.
+
+Theorem C09_check_integer_iff : forall v lo hi,
+  check_integer v lo hi = Ok tt <->
+  exists z, integer_value v z /\ (forall m, lo = Some m -> m <= z) /\ (forall m, hi = Some m -> z <= m).
+Proof. exact check_integer_iff. Qed.
+Print Assumptions C09_check_integer_iff.
+
+Theorem C09_check_choice_iff : forall v choices,
+  (check_choice v choices = Ok tt <-> exists s, v = PStr s /\ In s choices) /\
+  (check_choice v choices = Raise KType <-> hashable v = false) /\
+  (check_choice v choices = Ok tt \/ check_choice v choices = Raise KType \/
+   check_choice v choices = Raise KValidation).
+Proof. exact check_choice_iff. Qed.
+Print Assumptions C09_check_choice_iff.
+
+Theorem C09_check_uris_iff : forall v, check_uris v = Ok tt <-> exists l, yields v l /\ Forall valid_uri l.
+Proof. exact check_uris_iff. Qed.
+Print Assumptions C09_check_uris_iff.
+
+Theorem C09_check_query_iff : forall v fields,
+  check_query v fields = Ok tt <-> exists items, v = PDict items /\ Forall (valid_query_item fields) items.
+Proof. exact check_query_iff. Qed.
+Print Assumptions C09_check_query_iff.
+
+Theorem C09_validation_total : forall c,
+  vrun c = Ok tt \/ vrun c = Raise KValidation \/ vrun c = Raise KType.
+Proof. exact validation_total. Qed.
+Print Assumptions C09_validation_total.
+
+(* ---- the front door (Front.v): strings as numbers, the enumerated argument classes of the
+        routing model as values, rejected arguments never reach a provider *)
+Theorem C09_enc_injective : forall s, Forall code_point s -> forall t, Forall code_point t -> enc s = enc t -> s = t.
+Proof. exact enc_inj. Qed.
+Print Assumptions C09_enc_injective.
+
+Theorem C09_bad_uri_is_check_uri : forall s, bad_uri (uri_of s) = true <-> check_uri (PStr s) <> Ok tt.
+Proof. exact bad_uri_is_check_uri. Qed.
+Print Assumptions C09_bad_uri_is_check_uri.
+
+Theorem C09_query_token_validity : forall q,
+  sq_valid (sq_normalize q) = true <-> check_query (normalize_query (squery_val q)) search_fields = Ok tt.
+Proof. exact sq_valid_is_check_query. Qed.
+Print Assumptions C09_query_token_validity.
+
+Theorem C09_query_token_normalize : forall q, squery_val (sq_normalize q) = normalize_query (squery_val q).
+Proof. exact squery_val_normalize. Qed.
+Print Assumptions C09_query_token_normalize.
+
+Theorem C09_distinct_query_validity : forall q,
+  dq_valid q = true <->
+  match q with Some q => check_query (squery_val q) search_fields | None => vok end = Ok tt.
+Proof. exact dq_valid_is_check_query. Qed.
+Print Assumptions C09_distinct_query_validity.
+
+Theorem C09_field_token_validity : forall f,
+  classify_field (PStr (field_val f)) = if field_valid f then Ok f else Raise KValidation.
+Proof. exact classify_field_token. Qed.
+Print Assumptions C09_field_token_validity.
+
+Theorem C09_validate_raises : forall r k,
+  validate r = Raise k ->
+  k = KValidation \/ (k = KType /\ exists fv q, r = RDistinct fv q /\ hashable fv = false) \/
+  (k = KException /\ exists v, r = RBrowse v).
+Proof. exact validate_raises. Qed.
+Print Assumptions C09_validate_raises.
+
+Theorem C09_raw_rejected_no_calls : forall P T mx r k,
+  mk_backends P = Ok T -> validate r = Raise k -> run_raw P mx r = ([], Raise k).
+Proof. exact raw_rejected_no_calls. Qed.
+Print Assumptions C09_raw_rejected_no_calls.
+
+Theorem C09_validate_lookup_iff : forall v o,
+  validate (RLookup v) = Ok o <->
+  (exists l, yields v l /\ Forall valid_uri l) /\ o = OLookup (elems_uris v).
+Proof. exact validate_lookup_iff. Qed.
+Print Assumptions C09_validate_lookup_iff.
+
+Theorem C09_raw_lookup_keys_exact : forall P mx v log val,
+  run_raw P mx (RLookup v) = (log, Ok val) ->
+  exists m l, val = VMap m /\ yields v l /\ Forall valid_uri l /\ NoDup (keys m) /\
+              forall u, In u (keys m) <-> exists s, In (PStr s) l /\ u = uri_of s.
+Proof. exact raw_lookup_keys_exact. Qed.
+Print Assumptions C09_raw_lookup_keys_exact.
+
+Theorem C09_raw_trace_predicate_holds : forall P mx r, rtrace_ok_b P r (run_raw P mx r) = true.
+Proof. exact rtrace_ok_model. Qed.
+Print Assumptions C09_raw_trace_predicate_holds.
